@@ -1,12 +1,1024 @@
-//! C04 — monitor not built yet (stub so that the registry is complete).
+//! C04 — conditional refinement never removes feasible values.
+//!
+//! Monitor shape: the real `SpecializeByConditional` methods of `IntervalDomain` and
+//! `DataDomain<IntervalDomain>` are executed; the set of members of the input that satisfy
+//! the condition is computed by the harness from the definition of the comparison and must
+//! be contained in gamma(result); `Err` is only accepted if that set is empty.
+//! (Interval observation, construction and generators are shared with `c02`.)
+
+use crate::c02::{
+    bm_test, build, build_plain, build_u1, dom_json, gen_hints, gen_input, gen_iv, input_for, observe, sample_members, smax, smin, vjson, vparse,
+    wf_error, Input, Iv, Obs,
+};
+use crate::conv::*;
 use crate::core::*;
+use crate::pref::V;
+use crate::prng::{mix, Rng};
+use cwe_checker_lib::abstract_domain::{AbstractIdentifier, AbstractLocation, DataDomain, IntervalDomain, SpecializeByConditional};
+use cwe_checker_lib::intermediate_representation::*;
+use serde_json::{json, Value};
+use std::collections::BTreeMap;
 
 pub fn info() -> CheckInfo {
     CheckInfo {
         id: "C04",
-        rule: "(monitor not built yet)",
-        assumptions: &[],
-        run: |_cfg| Report::new(),
-        replay: |_cfg, _case| Report::new(),
+        rule: "IntervalDomain::{add_signed_less_equal_bound, add_signed_greater_equal_bound, add_unsigned_less_equal_bound, add_unsigned_greater_equal_bound, add_not_equal_bound, intersect} and the same methods of DataDomain<IntervalDomain> (absolute part): feasible = members of gamma(x) satisfying the condition (computed from the definition of the comparison / membership in both operands); Ok(r) must be well-formed with feasible subset of gamma(r); Err only if feasible is empty. 1-byte universe U1 x 1-byte bounds (quick: a seeded slice of the bounds that always contains the bounds next to the interval ends; thorough: all 256), plain and with widening hints, all members via 256-bit sets; intersect on biased pairs of U1 in both orders; widths 2/4/8 sampled with exact feasibility by range arithmetic; DataDomain: relative targets and the top flag must survive add_*_bound. non-trivial = some but not all members satisfy the condition; distinct = hash of (method, interval(s), bound)",
+        assumptions: &[
+            "gamma(IntervalDomain) = {start, start+stride, .., end} read from the serde form; widening hints and delay do not change gamma",
+            "inputs with widening hints are built through update_widening_*_bound (public API), so only reachable hint states are fed",
+            "operands of intersect and bound/value pairs have equal widths (asserted by the code)",
+            "DataDomain: only the absolute part is judged (DataDomain::intersect is documented as unsound for relative values); for intersect the demand is restricted to values contained in both absolute parts",
+            "verdicts on the release profile",
+        ],
+        run,
+        replay,
     }
+}
+
+// ---------------------------------------------------------------------------
+// Conditions
+
+#[derive(Clone, Copy, Debug, PartialEq, Eq)]
+pub enum Cond {
+    Sle,
+    Sge,
+    Ule,
+    Uge,
+    Ne,
+}
+
+pub const CONDS: [Cond; 5] = [Cond::Sle, Cond::Sge, Cond::Ule, Cond::Uge, Cond::Ne];
+
+impl Cond {
+    pub fn name(&self) -> &'static str {
+        match self {
+            Cond::Sle => "add_signed_less_equal_bound",
+            Cond::Sge => "add_signed_greater_equal_bound",
+            Cond::Ule => "add_unsigned_less_equal_bound",
+            Cond::Uge => "add_unsigned_greater_equal_bound",
+            Cond::Ne => "add_not_equal_bound",
+        }
+    }
+    pub fn from_name(s: &str) -> Option<Cond> {
+        CONDS.into_iter().find(|c| c.name() == s)
+    }
+    /// The definition of the comparison on concrete values.
+    pub fn sat(&self, v: V, b: V) -> bool {
+        match self {
+            Cond::Sle => v.s() <= b.s(),
+            Cond::Sge => v.s() >= b.s(),
+            Cond::Ule => v.v <= b.v,
+            Cond::Uge => v.v >= b.v,
+            Cond::Ne => v.v != b.v,
+        }
+    }
+    fn apply<T: SpecializeByConditional>(&self, x: T, bound: &Bitvector) -> Result<T, anyhow::Error> {
+        match self {
+            Cond::Sle => x.add_signed_less_equal_bound(bound),
+            Cond::Sge => x.add_signed_greater_equal_bound(bound),
+            Cond::Ule => x.add_unsigned_less_equal_bound(bound),
+            Cond::Uge => x.add_unsigned_greater_equal_bound(bound),
+            Cond::Ne => x.add_not_equal_bound(bound),
+        }
+    }
+}
+
+/// Is there a member of `iv` in the signed range [lo, hi]?
+fn exists_in_range(iv: &Iv, lo: i128, hi: i128) -> bool {
+    let lo = lo.max(iv.s);
+    let hi = hi.min(iv.e);
+    if lo > hi {
+        return false;
+    }
+    if iv.stride == 0 {
+        return true; // iv.s == iv.e lies in [lo, hi]
+    }
+    // first member >= lo
+    let d = (lo as u128).wrapping_sub(iv.s as u128);
+    let st = iv.stride as u128;
+    let k = d / st + (d % st != 0) as u128;
+    match k.checked_mul(st) {
+        Some(off) if off <= iv.span() => ((iv.s as u128).wrapping_add(off) as i128) <= hi,
+        _ => false,
+    }
+}
+
+/// Exact decision "some member of `iv` satisfies `cond` against `b`" by range arithmetic (any width).
+pub fn exists_sat(cond: Cond, iv: &Iv, b: V) -> bool {
+    let (mn, mx) = (smin(iv.w), smax(iv.w));
+    let bs_ = b.s();
+    match cond {
+        Cond::Sle => exists_in_range(iv, mn, bs_),
+        Cond::Sge => exists_in_range(iv, bs_, mx),
+        Cond::Ule => {
+            if bs_ >= 0 {
+                exists_in_range(iv, 0, bs_)
+            } else {
+                exists_in_range(iv, 0, mx) || exists_in_range(iv, mn, bs_)
+            }
+        }
+        Cond::Uge => {
+            if bs_ >= 0 {
+                exists_in_range(iv, bs_, mx) || exists_in_range(iv, mn, -1)
+            } else {
+                exists_in_range(iv, bs_, -1)
+            }
+        }
+        Cond::Ne => !(iv.is_single() && iv.s == bs_),
+    }
+}
+
+fn sat_bitmap(cond: Cond, bound: u8) -> [u64; 4] {
+    let mut bm = [0u64; 4];
+    let b = V::new(bound as u128, 1);
+    for v in 0..256usize {
+        if cond.sat(V::new(v as u128, 1), b) {
+            bm[v >> 6] |= 1 << (v & 63);
+        }
+    }
+    bm
+}
+
+fn bm_and(a: &[u64; 4], b: &[u64; 4]) -> [u64; 4] {
+    [a[0] & b[0], a[1] & b[1], a[2] & b[2], a[3] & b[3]]
+}
+fn bm_minus(a: &[u64; 4], b: &[u64; 4]) -> [u64; 4] {
+    [a[0] & !b[0], a[1] & !b[1], a[2] & !b[2], a[3] & !b[3]]
+}
+fn bm_empty(a: &[u64; 4]) -> bool {
+    a.iter().all(|x| *x == 0)
+}
+fn bm_first(a: &[u64; 4]) -> Option<u8> {
+    (0..256usize).find(|u| bm_test(a, *u)).map(|u| u as u8)
+}
+fn bm_count(a: &[u64; 4]) -> u32 {
+    a.iter().map(|x| x.count_ones()).sum()
+}
+
+/// Per-run constant tables for the 1-byte universe.
+pub struct Tables {
+    sat: Vec<[u64; 4]>, // index cond*256 + bound
+    bounds: Vec<Bitvector>,
+}
+
+impl Tables {
+    pub fn new() -> Tables {
+        let mut sat = Vec::with_capacity(5 * 256);
+        for c in CONDS {
+            for b in 0..256usize {
+                sat.push(sat_bitmap(c, b as u8));
+            }
+        }
+        Tables { sat, bounds: (0..256u128).map(|b| to_bv(V::new(b, 1))).collect() }
+    }
+}
+
+// ---------------------------------------------------------------------------
+// Checks on IntervalDomain
+
+fn judge_refinement(
+    rep: &mut Report,
+    sig: &dyn Fn(&str) -> String,
+    desc: &dyn Fn() -> String,
+    res: Result<Result<IntervalDomain, anyhow::Error>, String>,
+    w: u32,
+    case: &dyn Fn() -> Value,
+    size: u64,
+) -> Option<Option<Obs>> {
+    match res {
+        Err(p) => {
+            rep.violation(sig(&format!("panic:{}", panic_site(&p))), None, format!("{} panicked inside the input domain: {p}", desc()), case(), size);
+            None
+        }
+        Ok(Err(_)) => Some(None),
+        Ok(Ok(r)) => match observe(&r) {
+            Err(e) => {
+                rep.violation(sig("illformed:unobservable"), None, format!("{}: result cannot be read: {e}", desc()), case(), size);
+                None
+            }
+            Ok(o) => {
+                if let Some((kind, d)) = wf_error(&o, Some(w)) {
+                    rep.violation(sig(&format!("illformed:{kind}")), None, format!("{} = Ok({}) is ill-formed: {d}", desc(), o.iv.show()), case(), size);
+                    None
+                } else {
+                    Some(Some(o))
+                }
+            }
+        },
+    }
+}
+
+/// 1-byte fast path: all members by bitmap.
+fn check_bound_u1(cond: Cond, ci: usize, a: &Input, abm: &[u64; 4], bound: u8, t: &Tables, rep: &mut Report, track: bool) {
+    rep.eval();
+    let feasible = bm_and(abm, &t.sat[ci * 256 + bound as usize]);
+    let bbv = &t.bounds[bound as usize];
+    let d = a.dom.clone();
+    let res = guard(move || cond.apply(d, bbv));
+    let bv = V::new(bound as u128, 1);
+    let sig = |what: &str| format!("bound:{}:w1:{what}", cond.name());
+    let desc = || format!("{}({}, bound {})", cond.name(), a.iv.show(), bv.s());
+    let case = || json!({"kind":"bound","fn":cond.name(),"a":dom_json(&a.dom),"bound":vjson(bv),"wa":[]});
+    let size = a.iv.size() + 8 * a.hinted as u64 + (bv.s().unsigned_abs() as u64).min(64);
+    let Some(out) = judge_refinement(rep, &sig, &desc, res, 1, &case, size) else { return };
+    match out {
+        None => {
+            if let Some(v) = bm_first(&feasible) {
+                rep.violation(
+                    sig("err-but-feasible"),
+                    None,
+                    format!("{} = Err although {} member(s) satisfy the condition, e.g. {:#x}; expected Ok(..) containing them", desc(), bm_count(&feasible), v),
+                    case(),
+                    size,
+                );
+            }
+            if track {
+                rep.obs("result:err");
+            }
+        }
+        Some(o) => {
+            let lost = bm_minus(&feasible, &o.iv.bitmap());
+            if let Some(v) = bm_first(&lost) {
+                rep.violation(
+                    sig("lost-member"),
+                    None,
+                    format!("{} = Ok({}): member {:#x} satisfies the condition but is not in gamma(result)", desc(), o.iv.show(), v),
+                    case(),
+                    size,
+                );
+            }
+            if track {
+                rep.obs(if o.iv == a.iv { "result:unchanged" } else { "result:refined" });
+            }
+        }
+    }
+    if track {
+        let nf = bm_count(&feasible);
+        if nf > 0 && nf < bm_count(abm) {
+            rep.nontrivial(mix(mix(ci as u64 + 11, a.iv.fp()), bound as u64));
+        }
+    }
+}
+
+/// Generic path (any width): exact feasibility by range arithmetic, membership for the listed members.
+pub fn check_bound_w(cond: Cond, a: &Input, bound: V, members: &[V], rep: &mut Report, track: bool) {
+    if bound.w != a.iv.w {
+        return;
+    }
+    rep.eval();
+    let w = a.iv.w;
+    let bbv = to_bv(bound);
+    let d = a.dom.clone();
+    let res = guard(move || cond.apply(d, &bbv));
+    let sig = |what: &str| format!("bound:{}:w{w}:{what}", cond.name());
+    let desc = || format!("{}({}, bound {})", cond.name(), a.iv.show(), bound.s());
+    let case = || json!({"kind":"bound","fn":cond.name(),"a":dom_json(&a.dom),"bound":vjson(bound),"wa":members.iter().take(16).map(|v| vjson(*v)).collect::<Vec<_>>()});
+    let size = a.iv.size() + 8 * a.hinted as u64 + (128 - bound.s().unsigned_abs().leading_zeros()) as u64;
+    let Some(out) = judge_refinement(rep, &sig, &desc, res, w, &case, size) else { return };
+    let feasible_exists = exists_sat(cond, &a.iv, bound);
+    let sat_members: Vec<V> = members.iter().copied().filter(|v| cond.sat(*v, bound)).collect();
+    if !sat_members.is_empty() && !feasible_exists {
+        rep.inconclusive("oracle-self-check:exists_sat");
+        return;
+    }
+    match out {
+        None => {
+            if feasible_exists {
+                rep.violation(
+                    sig("err-but-feasible"),
+                    None,
+                    format!("{} = Err although some member satisfies the condition{}; expected Ok(..)", desc(), sat_members.first().map(|v| format!(", e.g. {:#x}", v.v)).unwrap_or_default()),
+                    case(),
+                    size,
+                );
+            }
+            if track {
+                rep.obs("result:err");
+            }
+        }
+        Some(o) => {
+            if let Some(v) = sat_members.iter().find(|v| !o.iv.contains(**v)) {
+                rep.violation(
+                    sig("lost-member"),
+                    None,
+                    format!("{} = Ok({}): member {:#x} satisfies the condition but is not in gamma(result)", desc(), o.iv.show(), v.v),
+                    json!({"kind":"bound","fn":cond.name(),"a":dom_json(&a.dom),"bound":vjson(bound),"wa":[vjson(*v)]}),
+                    size,
+                );
+            }
+            if track {
+                rep.obs(if o.iv == a.iv { "result:unchanged" } else { "result:refined" });
+            }
+        }
+    }
+    if track {
+        rep.obs(&format!("bound:{}:w{w}", cond.name()));
+        if !sat_members.is_empty() && sat_members.len() < members.len() {
+            rep.nontrivial(mix(mix(cond as u64 + 11, a.iv.fp()), mix(bound.v as u64, (bound.v >> 64) as u64)));
+        }
+    }
+}
+
+/// What the harness knows about gamma(a) ∩ gamma(b).
+enum Common {
+    /// the complete intersection
+    Exact(Vec<V>),
+    /// some members of the intersection (possibly none known)
+    Some(Vec<V>),
+}
+
+fn common_members(a: &Iv, b: &Iv, known: &[V]) -> Common {
+    for (x, y) in [(a, b), (b, a)] {
+        if let Some(m) = x.all_members(4096) {
+            return Common::Exact(m.into_iter().filter(|v| y.contains(*v)).collect());
+        }
+    }
+    let mut v: Vec<V> = known.iter().copied().filter(|v| a.contains(*v) && b.contains(*v)).collect();
+    for m in a.std_members().into_iter().chain(b.std_members()) {
+        if a.contains(m) && b.contains(m) && !v.contains(&m) {
+            v.push(m);
+        }
+    }
+    Common::Some(v)
+}
+
+pub const KNOWN_CRT_OVERFLOW: &str = "c04-intersect-crt-overflow";
+
+fn gcd_u128(mut a: u128, mut b: u128) -> u128 {
+    while b != 0 {
+        let t = a % b;
+        a = b;
+        b = t;
+    }
+    a
+}
+
+/// Discriminator of the open known finding "lcm of the strides does not fit into 64 bits is reported as empty":
+/// both strides non-zero and lcm(stride_a, stride_b) > u64::MAX (computed here in u128).
+pub fn lcm_overflows(a: &Iv, b: &Iv) -> bool {
+    if a.stride == 0 || b.stride == 0 {
+        return false;
+    }
+    let (x, y) = (a.stride as u128, b.stride as u128);
+    (x / gcd_u128(x, y)) * y > u64::MAX as u128
+}
+
+/// `a.intersect(b)`; `known` = values the generator knows to be in both.
+pub fn check_intersect(a: &Input, b: &Input, known: &[V], rep: &mut Report, track: bool) {
+    if a.iv.w != b.iv.w {
+        return;
+    }
+    rep.eval();
+    let w = a.iv.w;
+    let d = a.dom.clone();
+    let res = guard(move || d.intersect(&b.dom));
+    let sig = |what: &str| format!("intersect:w{w}:{what}");
+    let desc = || format!("intersect({}, {})", a.iv.show(), b.iv.show());
+    let case = || json!({"kind":"intersect","a":dom_json(&a.dom),"b":dom_json(&b.dom),"wa":known.iter().take(16).map(|v| vjson(*v)).collect::<Vec<_>>()});
+    let size = a.iv.size() + b.iv.size() + 8 * (a.hinted as u64 + b.hinted as u64);
+    let Some(out) = judge_refinement(rep, &sig, &desc, res, w, &case, size) else { return };
+    let common = common_members(&a.iv, &b.iv, known);
+    let (list, exact) = match &common {
+        Common::Exact(l) => (l, true),
+        Common::Some(l) => (l, false),
+    };
+    match out {
+        None => {
+            if let Some(v) = list.first() {
+                if lcm_overflows(&a.iv, &b.iv) {
+                    rep.violation(
+                        sig("err-but-feasible:lcm-overflow"),
+                        Some(KNOWN_CRT_OVERFLOW),
+                        format!("{} = Err although {:#x} is a member of both (lcm of the strides exceeds 64 bits: the overflow error of the residue-class computation is reported as 'empty'); expected Ok(..) containing it", desc(), v.v),
+                        case(),
+                        size,
+                    );
+                } else {
+                    rep.violation(sig("err-but-feasible"), None, format!("{} = Err although {:#x} is a member of both; expected Ok(..) containing it", desc(), v.v), case(), size);
+                }
+            } else if !exact {
+                rep.obs("intersect:err-not-decidable-by-harness");
+            }
+            if track {
+                rep.obs("result:err");
+            }
+        }
+        Some(o) => {
+            if let Some(v) = list.iter().find(|v| !o.iv.contains(**v)) {
+                rep.violation(
+                    sig("lost-member"),
+                    None,
+                    format!("{} = Ok({}): {:#x} is a member of both operands but not of gamma(result)", desc(), o.iv.show(), v.v),
+                    json!({"kind":"intersect","a":dom_json(&a.dom),"b":dom_json(&b.dom),"wa":[vjson(*v)]}),
+                    size,
+                );
+            }
+            if track {
+                rep.obs("result:ok");
+            }
+        }
+    }
+    if track {
+        rep.obs(&format!("intersect:w{w}:{}", if exact { "exact" } else { "witnesses" }));
+        if !list.is_empty() && a.iv != b.iv {
+            rep.nontrivial(mix(mix(77, a.iv.fp()), b.iv.fp()));
+        }
+    }
+}
+
+// ---------------------------------------------------------------------------
+// Checks on DataDomain<IntervalDomain>
+
+type DD = DataDomain<IntervalDomain>;
+
+fn mk_id(n: usize) -> AbstractIdentifier {
+    let names = ["RAX", "RBX", "RSP"];
+    AbstractIdentifier::new(
+        Tid::new(format!("t{n}")),
+        AbstractLocation::Register(Variable { name: names[n % 3].to_string(), size: ByteSize::new(8), is_temp: false }),
+    )
+}
+
+fn abs_input(dd: &DD) -> Result<Option<Input>, String> {
+    match dd.get_absolute_value() {
+        None => Ok(None),
+        Some(d) => {
+            let o = observe(d)?;
+            if wf_error(&o, None).is_some() {
+                return Err("ill-formed absolute part".into());
+            }
+            Ok(Some(Input { dom: d.clone(), iv: o.iv, hinted: o.lo.is_some() || o.hi.is_some() || o.delay != 0 }))
+        }
+    }
+}
+
+fn dd_show(dd: &DD, abs: &Option<Input>) -> String {
+    format!(
+        "DataDomain{{abs: {}, {} relative target(s), top flag {}}}",
+        abs.as_ref().map(|a| a.iv.show()).unwrap_or_else(|| "none".into()),
+        dd.get_relative_values().len(),
+        dd.contains_top()
+    )
+}
+
+fn dd_size(dd: &DD, abs: &Option<Input>) -> u64 {
+    abs.as_ref().map(|a| a.iv.size() + 8 * a.hinted as u64).unwrap_or(0) + 16 * dd.get_relative_values().len() as u64 + 4 * dd.contains_top() as u64
+}
+
+pub fn check_data_bound(cond: Cond, dd: &DD, bound: V, members: &[V], rep: &mut Report, track: bool) {
+    let abs = match abs_input(dd) {
+        Ok(a) => a,
+        Err(_) => return,
+    };
+    let w = u64::from(cwe_checker_lib::abstract_domain::SizedDomain::bytesize(dd)) as u32;
+    if bound.w != w {
+        return;
+    }
+    rep.eval();
+    let bbv = to_bv(bound);
+    let d = dd.clone();
+    let res = guard(move || cond.apply(d, &bbv));
+    let sig = |what: &str| format!("data:{}:w{w}:{what}", cond.name());
+    let desc = || format!("{}({}, bound {})", cond.name(), dd_show(dd, &abs), bound.s());
+    let case = || json!({"kind":"data-bound","fn":cond.name(),"dd":serde_json::to_value(dd).unwrap_or(Value::Null),"bound":vjson(bound),"wa":members.iter().take(16).map(|v| vjson(*v)).collect::<Vec<_>>()});
+    let size = dd_size(dd, &abs);
+    let feasible_exists = abs.as_ref().map(|a| exists_sat(cond, &a.iv, bound)).unwrap_or(false);
+    let sat_members: Vec<V> = match &abs {
+        Some(a) => members.iter().copied().filter(|v| a.iv.contains(*v) && cond.sat(*v, bound)).collect(),
+        None => Vec::new(),
+    };
+    let others_left = !dd.get_relative_values().is_empty() || dd.contains_top();
+    match res {
+        Err(p) => rep.violation(sig(&format!("panic:{}", panic_site(&p))), None, format!("{} panicked: {p}", desc()), case(), size),
+        Ok(Err(_)) => {
+            if others_left || feasible_exists {
+                rep.violation(
+                    sig("err-but-nonempty"),
+                    None,
+                    format!("{} = Err although something is left (relative targets/top flag: {others_left}, satisfying absolute member exists: {feasible_exists})", desc()),
+                    case(),
+                    size,
+                );
+            }
+            if track {
+                rep.obs("data:result:err");
+            }
+        }
+        Ok(Ok(r)) => {
+            if r.get_relative_values() != dd.get_relative_values() {
+                rep.violation(sig("relative-targets-changed"), None, format!("{}: the relative targets did not survive", desc()), case(), size);
+            }
+            if r.contains_top() != dd.contains_top() {
+                rep.violation(sig("top-flag-changed"), None, format!("{}: top flag {} -> {}", desc(), dd.contains_top(), r.contains_top()), case(), size);
+            }
+            match r.get_absolute_value() {
+                None => {
+                    if feasible_exists {
+                        rep.violation(sig("lost-absolute"), None, format!("{}: absolute part dropped although a member satisfies the condition", desc()), case(), size);
+                    }
+                }
+                Some(ra) => match observe(ra) {
+                    Err(e) => rep.violation(sig("illformed:unobservable"), None, format!("{}: {e}", desc()), case(), size),
+                    Ok(o) => {
+                        if let Some((kind, d)) = wf_error(&o, Some(w)) {
+                            rep.violation(sig(&format!("illformed:{kind}")), None, format!("{}: absolute result {} ill-formed: {d}", desc(), o.iv.show()), case(), size);
+                        } else if let Some(v) = sat_members.iter().find(|v| !o.iv.contains(**v)) {
+                            rep.violation(sig("lost-member"), None, format!("{}: absolute result {} lost the satisfying member {:#x}", desc(), o.iv.show(), v.v), case(), size);
+                        }
+                    }
+                },
+            }
+            if track {
+                rep.obs("data:result:ok");
+            }
+        }
+    }
+    if track {
+        rep.obs(&format!("data:{}:w{w}:rel{}:abs{}:top{}", cond.name(), dd.get_relative_values().len(), abs.is_some() as u8, dd.contains_top() as u8));
+        if !sat_members.is_empty() && sat_members.len() < members.len() {
+            rep.nontrivial(mix(mix(cond as u64 + 31, fp_of(&dd_show(dd, &abs))), bound.v as u64));
+        }
+    }
+}
+
+pub fn check_data_intersect(da: &DD, db: &DD, known: &[V], rep: &mut Report, track: bool) {
+    let (Ok(aa), Ok(ab)) = (abs_input(da), abs_input(db)) else { return };
+    let w = u64::from(cwe_checker_lib::abstract_domain::SizedDomain::bytesize(da)) as u32;
+    rep.eval();
+    let d = da.clone();
+    let res = guard(move || d.intersect(db));
+    let sig = |what: &str| format!("data:intersect:w{w}:{what}");
+    let desc = || format!("intersect({}, {})", dd_show(da, &aa), dd_show(db, &ab));
+    let case = || json!({"kind":"data-intersect","dd":serde_json::to_value(da).unwrap_or(Value::Null),"dd2":serde_json::to_value(db).unwrap_or(Value::Null),"wa":known.iter().take(16).map(|v| vjson(*v)).collect::<Vec<_>>()});
+    let size = dd_size(da, &aa) + dd_size(db, &ab);
+    let list: Vec<V> = match (&aa, &ab) {
+        (Some(a), Some(b)) => match common_members(&a.iv, &b.iv, known) {
+            Common::Exact(l) | Common::Some(l) => l,
+        },
+        _ => Vec::new(),
+    };
+    match res {
+        Err(p) => rep.violation(sig(&format!("panic:{}", panic_site(&p))), None, format!("{} panicked: {p}", desc()), case(), size),
+        Ok(Err(_)) => {
+            if let Some(v) = list.first() {
+                let overflow = matches!((&aa, &ab), (Some(a), Some(b)) if lcm_overflows(&a.iv, &b.iv));
+                if overflow {
+                    rep.violation(
+                        sig("err-but-feasible:lcm-overflow"),
+                        Some(KNOWN_CRT_OVERFLOW),
+                        format!("{} = Err although {:#x} is contained in both absolute parts (lcm of the strides exceeds 64 bits)", desc(), v.v),
+                        case(),
+                        size,
+                    );
+                } else {
+                    rep.violation(sig("err-but-feasible"), None, format!("{} = Err although {:#x} is contained in both absolute parts", desc(), v.v), case(), size);
+                }
+            }
+        }
+        Ok(Ok(r)) => {
+            if !r.contains_top() {
+                match r.get_absolute_value().map(observe) {
+                    None => {
+                        if let Some(v) = list.first() {
+                            let overflow = matches!((&aa, &ab), (Some(a), Some(b)) if lcm_overflows(&a.iv, &b.iv));
+                            let (what, key) = if overflow { ("lost-absolute:lcm-overflow", Some(KNOWN_CRT_OVERFLOW)) } else { ("lost-absolute", None) };
+                            rep.violation(sig(what), key, format!("{}: no absolute part and no top flag although {:#x} is in both absolute parts", desc(), v.v), case(), size);
+                        }
+                    }
+                    Some(Err(e)) => rep.violation(sig("illformed:unobservable"), None, format!("{}: {e}", desc()), case(), size),
+                    Some(Ok(o)) => {
+                        if let Some((kind, d)) = wf_error(&o, Some(w)) {
+                            rep.violation(sig(&format!("illformed:{kind}")), None, format!("{}: absolute result {} ill-formed: {d}", desc(), o.iv.show()), case(), size);
+                        } else if let Some(v) = list.iter().find(|v| !o.iv.contains(**v)) {
+                            rep.violation(sig("lost-member"), None, format!("{}: absolute result {} lost {:#x}, which is in both absolute parts", desc(), o.iv.show(), v.v), case(), size);
+                        }
+                    }
+                }
+            }
+        }
+    }
+    if track {
+        rep.obs(&format!("data:intersect:w{w}"));
+        if !list.is_empty() {
+            rep.nontrivial(mix(fp_of(&dd_show(da, &aa)), fp_of(&dd_show(db, &ab))));
+        }
+    }
+}
+
+// ---------------------------------------------------------------------------
+// Workload
+
+#[derive(Clone, Debug)]
+enum Task {
+    Samples,
+    SelfCheck,
+    /// all of U1 with this start value x bounds x the five methods
+    U1Bounds(i128),
+    Intersect1(u64),
+    WideBounds(u32, u64),
+    WideIntersect(u32, u64),
+    Data(u64),
+}
+
+/// Members next to a value `x` (the last member <= x and the first member >= x), if any.
+fn members_around(iv: &Iv, x: i128) -> Vec<V> {
+    let mut out = Vec::new();
+    if iv.stride == 0 || x <= iv.s {
+        out.push(iv.member(0));
+        return out;
+    }
+    if x >= iv.e {
+        out.push(iv.member(iv.steps()));
+        return out;
+    }
+    let d = (x as u128).wrapping_sub(iv.s as u128);
+    let k = d / iv.stride as u128;
+    out.push(iv.member(k));
+    if k < iv.steps() {
+        out.push(iv.member(k + 1));
+    }
+    if k > 0 {
+        out.push(iv.member(k - 1));
+    }
+    out
+}
+
+/// Bounds that matter for `iv` plus random ones.
+fn gen_bound(rng: &mut Rng, iv: &Iv) -> V {
+    let w = iv.w;
+    let clampv = |x: i128| V::from_i(x.clamp(smin(w), smax(w)), w);
+    let st = iv.stride.max(1) as i128;
+    match rng.below(12) {
+        0 => clampv(iv.s),
+        1 => clampv(iv.e),
+        2 => clampv(iv.s.saturating_sub(1)),
+        3 => clampv(iv.e.saturating_add(1)),
+        4 => clampv(iv.s.saturating_add(rng.range_i64(-2, 2) as i128)),
+        5 => clampv(iv.e.saturating_add(rng.range_i64(-2, 2) as i128)),
+        6 => {
+            // next to a random member
+            let n = iv.steps();
+            let k = if n == u128::MAX { rng.next_u128() } else { rng.next_u128() % (n + 1) };
+            clampv(iv.member(k).s().saturating_add(rng.range_i64(-1, 1) as i128))
+        }
+        7 => clampv(iv.s.saturating_add(st.saturating_mul(rng.range_i64(-3, 3) as i128)).saturating_add(rng.range_i64(-1, 1) as i128)),
+        8 => clampv(*rng.pick(&[0i128, -1, 1, smin(w), smax(w), smin(w) + 1, smax(w) - 1])),
+        _ => V::new(rng.biased(w), w),
+    }
+}
+
+fn bound_members(rng: &mut Rng, iv: &Iv, bound: V) -> Vec<V> {
+    let mut m = sample_members(rng, iv, 3);
+    for x in [bound.s(), bound.s().saturating_add(1), bound.s().saturating_sub(1), 0, -1] {
+        for v in members_around(iv, x) {
+            if !m.contains(&v) {
+                m.push(v);
+            }
+        }
+    }
+    m
+}
+
+fn run_u1_bounds(start: i128, u1: &[Iv], cfg: &Cfg, rng: &mut Rng, rep: &mut Report) {
+    let t = Tables::new();
+    let thorough = cfg.tier == Tier::Thorough;
+    let hinted_variants = cfg.tier.pick(1, 3);
+    let mut calls = 0u64;
+    for a in u1.iter().filter(|iv| iv.s == start) {
+        let abm = a.bitmap();
+        let mut variants: Vec<Input> = vec![build_plain(*a)];
+        for _ in 0..hinted_variants {
+            // retry a few times until the hints are accepted
+            for _ in 0..4 {
+                let h = gen_hints(rng, a);
+                match build(*a, &h) {
+                    Ok(inp) if inp.hinted => {
+                        variants.push(inp);
+                        break;
+                    }
+                    Ok(_) => (),
+                    Err(e) => {
+                        rep.inconclusive("input-construction");
+                        rep.note(format!("input construction failed: {e}"));
+                    }
+                }
+            }
+        }
+        for inp in &variants {
+            // which bounds
+            let mut sel = [thorough; 256];
+            if !thorough {
+                let st = a.stride.max(1) as i128;
+                for x in [a.s - 1, a.s, a.s + 1, a.e - 1, a.e, a.e + 1, a.s + st, a.e - st, a.s + st + 1, a.e - st - 1, 0, -1, 1, -128, 127, -127, 126] {
+                    if (-128..=127).contains(&x) {
+                        sel[(x as u8) as usize] = true;
+                    }
+                }
+                for _ in 0..20 {
+                    sel[rng.usize_below(256)] = true;
+                }
+            }
+            let salt = rng.next_u64();
+            for (ci, cond) in CONDS.iter().enumerate() {
+                for b in 0..256usize {
+                    if sel[b] {
+                        let track = (b as u64 ^ salt ^ ci as u64) % 16 == 0;
+                        check_bound_u1(*cond, ci, inp, &abm, b as u8, &t, rep, track);
+                        calls += 1;
+                    }
+                }
+            }
+        }
+    }
+    rep.obs_n(if thorough { "u1-bounds:calls(all 256 bounds)" } else { "u1-bounds:calls(slice of bounds)" }, calls);
+    if thorough && start == 127 {
+        rep.exhaustive_parts.push("every well-formed 1-byte interval x every 1-byte bound x the five add_*_bound methods (plain and with widening hints), all members".into());
+    }
+    if !thorough && start == 127 {
+        rep.exhaustive_parts.push("every well-formed 1-byte interval (bounds: seeded slice incl. all bounds next to the interval ends) x the five add_*_bound methods".into());
+    }
+}
+
+fn pick_u1(rng: &mut Rng, u1: &[Iv]) -> Iv {
+    match rng.below(4) {
+        0 | 1 => u1[rng.usize_below(u1.len())],
+        _ => gen_iv(rng, 1),
+    }
+}
+
+/// An interval that contains `c` (stride, extent below and above chosen at random).
+fn around(rng: &mut Rng, c: i128, w: u32) -> Iv {
+    let sw = w.min(8);
+    let stride: u64 = match rng.below(6) {
+        0 => 1,
+        1 => rng.below(16) + 1,
+        2 => 1u64 << rng.below((8 * sw - 1) as u64),
+        3 => (rng.biased(sw) as u64).max(1),
+        4 => rng.below(1000) + 1,
+        _ => (rng.next_u64() >> rng.below(64)).max(1),
+    };
+    let room_below = (c as u128).wrapping_sub(smin(w) as u128) / stride as u128;
+    let room_above = (smax(w) as u128).wrapping_sub(c as u128) / stride as u128;
+    let pickk = |rng: &mut Rng, room: u128| -> u128 {
+        match rng.below(4) {
+            0 => 0,
+            1 => (rng.below(8) as u128).min(room),
+            2 => room,
+            _ => rng.next_u128() % room.saturating_add(1),
+        }
+    };
+    let (kb, ka) = (pickk(rng, room_below), pickk(rng, room_above));
+    let s = (c as u128).wrapping_sub(kb * stride as u128) as i128;
+    let e = (c as u128).wrapping_add(ka * stride as u128) as i128;
+    if s == e {
+        Iv::single(c, w)
+    } else {
+        Iv { s, e, stride, w }
+    }
+}
+
+fn gen_intersect_pair(rng: &mut Rng, w: u32, u1: &[Iv], rep: &mut Report) -> (Input, Input, Vec<V>) {
+    let mut known = Vec::new();
+    let (a, b) = match rng.below(4) {
+        0 | 1 => {
+            let c = V::new(rng.biased(w), w).s();
+            known.push(V::from_i(c, w));
+            (around(rng, c, w), around(rng, c, w))
+        }
+        2 => {
+            // b derived from a: shifted by a few strides / clipped
+            let a = if w == 1 { pick_u1(rng, u1) } else { gen_iv(rng, w) };
+            let n = a.steps();
+            let k0 = if n == 0 { 0 } else { rng.next_u128() % (n + 1) };
+            let c = a.member(k0).s();
+            known.push(V::from_i(c, w));
+            (a, around(rng, c, w))
+        }
+        _ => {
+            if w == 1 {
+                (pick_u1(rng, u1), pick_u1(rng, u1))
+            } else {
+                (gen_iv(rng, w), gen_iv(rng, w))
+            }
+        }
+    };
+    (input_for(rng, a, rep), input_for(rng, b, rep), known)
+}
+
+fn run_intersect(w: u32, n: u64, u1: &[Iv], rng: &mut Rng, rep: &mut Report) {
+    for i in 0..n {
+        let (a, b, known) = gen_intersect_pair(rng, w, u1, rep);
+        check_intersect(&a, &b, &known, rep, true);
+        check_intersect(&b, &a, &known, rep, true);
+        if i < 4 && rep.wants_sample() && !a.iv.is_single() && !b.iv.is_single() {
+            rep.sample(json!({"kind":"intersect","a":dom_json(&a.dom),"b":dom_json(&b.dom),"value_known_to_be_in_both":known.iter().map(|v| vjson(*v)).collect::<Vec<_>>(),
+                "observed": format!("{:?}", guard(|| a.dom.clone().intersect(&b.dom)).map(|r| r.ok().and_then(|d| observe(&d).ok()).map(|o| o.iv.show())))}));
+        }
+    }
+}
+
+fn run_wide_bounds(w: u32, n: u64, rng: &mut Rng, rep: &mut Report) {
+    for i in 0..n {
+        let a = gen_input(rng, w, rep);
+        let bound = gen_bound(rng, &a.iv);
+        let members = bound_members(rng, &a.iv, bound);
+        for cond in CONDS {
+            check_bound_w(cond, &a, bound, &members, rep, true);
+        }
+        if i < 2 && rep.wants_sample() && !a.iv.is_single() {
+            rep.sample(json!({"kind":"bound","fn":"add_unsigned_less_equal_bound","a":dom_json(&a.dom),"bound":vjson(bound),
+                "members_checked":members.iter().map(|v| json!({"member":vjson(*v),"satisfies":Cond::Ule.sat(*v,bound)})).collect::<Vec<_>>(),
+                "some_member_satisfies": exists_sat(Cond::Ule, &a.iv, bound),
+                "observed": format!("{:?}", guard(|| a.dom.clone().add_unsigned_less_equal_bound(&to_bv(bound))).map(|r| r.ok().and_then(|d| observe(&d).ok()).map(|o| o.iv.show())))}));
+        }
+    }
+}
+
+fn gen_dd(rng: &mut Rng, w: u32, rep: &mut Report) -> DD {
+    let mut dd: DD = DataDomain::new_empty(bs(w));
+    if rng.chance(3, 4) {
+        dd.set_absolute_value(Some(gen_input(rng, w, rep).dom));
+    }
+    let n_rel = rng.below(3) as usize;
+    let mut rel = BTreeMap::new();
+    for i in 0..n_rel {
+        rel.insert(mk_id(i + rng.below(2) as usize), gen_input(rng, w, rep).dom);
+    }
+    dd.set_relative_values(rel);
+    if rng.chance(1, 4) {
+        dd.set_contains_top_flag();
+    }
+    dd
+}
+
+fn run_data(n: u64, rng: &mut Rng, rep: &mut Report) {
+    for _ in 0..n {
+        let w = *rng.pick(&[1u32, 1, 2, 4, 8]);
+        let dd = gen_dd(rng, w, rep);
+        let abs_iv = abs_input(&dd).ok().flatten().map(|a| a.iv);
+        let (bound, members) = match &abs_iv {
+            Some(iv) => {
+                let b = gen_bound(rng, iv);
+                let m = if w == 1 { iv.all_members(257).unwrap() } else { bound_members(rng, iv, b) };
+                (b, m)
+            }
+            None => (V::new(rng.biased(w), w), Vec::new()),
+        };
+        for cond in CONDS {
+            check_data_bound(cond, &dd, bound, &members, rep, true);
+        }
+        if rng.chance(1, 3) {
+            // intersect: second operand contains (if possible) a member of the first absolute part
+            let mut dd2 = gen_dd(rng, w, rep);
+            let mut known = Vec::new();
+            if let (Some(iv), true) = (&abs_iv, rng.bool()) {
+                let n = iv.steps();
+                let c = iv.member(if n == 0 { 0 } else { rng.next_u128() % (n + 1) });
+                known.push(c);
+                let iv2 = around(rng, c.s(), w);
+                dd2.set_absolute_value(Some(input_for(rng, iv2, rep).dom));
+            }
+            check_data_intersect(&dd, &dd2, &known, rep, true);
+            check_data_intersect(&dd2, &dd, &known, rep, true);
+        }
+    }
+}
+
+/// Cross-validation of the two feasibility oracles (bitmaps from the definition vs. range arithmetic).
+fn run_self_check(u1: &[Iv], rng: &mut Rng, rep: &mut Report) {
+    let t = Tables::new();
+    for _ in 0..200_000 {
+        let a = pick_u1(rng, u1);
+        let b = rng.below(256) as usize;
+        let ci = rng.usize_below(5);
+        let by_bitmap = !bm_empty(&bm_and(&a.bitmap(), &t.sat[ci * 256 + b]));
+        let by_range = exists_sat(CONDS[ci], &a, V::new(b as u128, 1));
+        if by_bitmap != by_range {
+            rep.inconclusive("oracle-self-check:exists_sat-vs-bitmap");
+            rep.note(format!("oracle self-check failed: {:?} {} bound {b}: bitmap {by_bitmap} range {by_range}", CONDS[ci], a.show()));
+        }
+        for x in [a.s, a.e, V::new(b as u128, 1).s()] {
+            for m in members_around(&a, x) {
+                if !a.contains(m) {
+                    rep.inconclusive("oracle-self-check:members_around");
+                }
+            }
+        }
+    }
+    rep.obs("oracle-self-check-done");
+}
+
+fn run_samples(rep: &mut Report) {
+    let a = build_plain(Iv { s: -7, e: 9, stride: 4, w: 1 });
+    let abm = a.iv.bitmap();
+    for (cond, b) in [(Cond::Sle, 2i128), (Cond::Uge, 250), (Cond::Ne, -7)] {
+        let bound = V::from_i(b, 1);
+        let feasible: Vec<i128> = (0..256u128).map(|v| V::new(v, 1)).filter(|v| bm_test(&abm, v.v as usize) && cond.sat(*v, bound)).map(|v| v.s()).collect();
+        let members = a.iv.all_members(257).unwrap();
+        check_bound_w(cond, &a, bound, &members, rep, true);
+        let observed = guard(|| cond.apply(a.dom.clone(), &to_bv(bound))).map(|r| r.ok().and_then(|d| observe(&d).ok()).map(|o| o.iv.show()));
+        rep.sample(json!({"kind":"bound","fn":cond.name(),"a":a.iv.show(),"bound":bound.s(),"members_satisfying_the_condition":feasible,"observed":format!("{observed:?}"),"demand":"all listed members in gamma(result); Err only if the list is empty"}));
+    }
+}
+
+fn run_task(task: &Task, u1: &[Iv], cfg: &Cfg, rng: &mut Rng, rep: &mut Report) {
+    match task {
+        Task::Samples => run_samples(rep),
+        Task::SelfCheck => run_self_check(u1, rng, rep),
+        Task::U1Bounds(s) => run_u1_bounds(*s, u1, cfg, rng, rep),
+        Task::Intersect1(n) => run_intersect(1, *n, u1, rng, rep),
+        Task::WideBounds(w, n) => run_wide_bounds(*w, *n, rng, rep),
+        Task::WideIntersect(w, n) => run_intersect(*w, *n, u1, rng, rep),
+        Task::Data(n) => run_data(*n, rng, rep),
+    }
+}
+
+fn run(cfg: &Cfg) -> Report {
+    let u1 = build_u1();
+    let mut tasks = vec![Task::Samples, Task::SelfCheck];
+    let shard = 20_000u64;
+    for _ in 0..cfg.tier.pick(8, 200) {
+        tasks.push(Task::Intersect1(shard));
+    }
+    for w in [2u32, 4, 8] {
+        for _ in 0..cfg.tier.pick(4, 100) {
+            tasks.push(Task::WideBounds(w, shard));
+            tasks.push(Task::WideIntersect(w, shard));
+        }
+    }
+    for _ in 0..cfg.tier.pick(8, 200) {
+        tasks.push(Task::Data(shard));
+    }
+    // big tasks first within the U1 sweep: start = -128 has the most intervals
+    for s in -128i128..=127 {
+        tasks.push(Task::U1Bounds(s));
+    }
+    let mut rep = par_shards(cfg, "c04", tasks.len(), |idx, rng, rep| run_task(&tasks[idx], &u1, cfg, rng, rep));
+    rep.extra.insert("u1_size".into(), json!(u1.len()));
+    rep
+}
+
+// ---------------------------------------------------------------------------
+// Replay
+
+fn replay_input(j: &Value) -> Option<Input> {
+    let dom: IntervalDomain = serde_json::from_value(j.clone()).ok()?;
+    let o = observe(&dom).ok()?;
+    if wf_error(&o, None).is_some() {
+        return None;
+    }
+    Some(Input { dom, iv: o.iv, hinted: o.lo.is_some() || o.hi.is_some() || o.delay != 0 })
+}
+
+fn replay_members(iv: &Iv, j: &Value, around_x: Option<i128>) -> Vec<V> {
+    let mut m = iv.all_members(1024).unwrap_or_else(|| iv.std_members());
+    if let Some(x) = around_x {
+        for v in members_around(iv, x) {
+            if !m.contains(&v) {
+                m.push(v);
+            }
+        }
+    }
+    if let Some(arr) = j.as_array() {
+        for v in arr.iter().filter_map(vparse) {
+            if iv.contains(v) && !m.contains(&v) {
+                m.push(v);
+            }
+        }
+    }
+    m
+}
+
+fn replay(_cfg: &Cfg, case: &Value) -> Report {
+    let mut rep = Report::new();
+    let known: Vec<V> = case["wa"].as_array().map(|a| a.iter().filter_map(vparse).collect()).unwrap_or_default();
+    match case["kind"].as_str().unwrap_or("") {
+        "bound" => {
+            if let (Some(cond), Some(a), Some(bound)) = (case["fn"].as_str().and_then(Cond::from_name), replay_input(&case["a"]), vparse(&case["bound"])) {
+                let m = replay_members(&a.iv, &case["wa"], Some(bound.s()));
+                check_bound_w(cond, &a, bound, &m, &mut rep, true);
+            }
+        }
+        "intersect" => {
+            if let (Some(a), Some(b)) = (replay_input(&case["a"]), replay_input(&case["b"])) {
+                check_intersect(&a, &b, &known, &mut rep, true);
+            }
+        }
+        "data-bound" => {
+            if let (Some(cond), Ok(dd), Some(bound)) = (case["fn"].as_str().and_then(Cond::from_name), serde_json::from_value::<DD>(case["dd"].clone()), vparse(&case["bound"])) {
+                let m = match abs_input(&dd) {
+                    Ok(Some(a)) => replay_members(&a.iv, &case["wa"], Some(bound.s())),
+                    _ => Vec::new(),
+                };
+                check_data_bound(cond, &dd, bound, &m, &mut rep, true);
+            }
+        }
+        "data-intersect" => {
+            if let (Ok(da), Ok(db)) = (serde_json::from_value::<DD>(case["dd"].clone()), serde_json::from_value::<DD>(case["dd2"].clone())) {
+                check_data_intersect(&da, &db, &known, &mut rep, true);
+            }
+        }
+        _ => rep.note("unknown replay case kind"),
+    }
+    rep
 }
